@@ -10,8 +10,11 @@ TEXT = {
 }
 def run(res, prop="C08"):
     t = TEXT[prop]
-    proof = proof_stage(res, prop, extra_obligations=1)
-    build_harness(); build_ml()
+    extra = 2 if prop == "C08" else 3      # the byte comparison, the translation of should_format_node, (C09) its tie
+    t_ok, t_log = rs2v("should_format_node")
+    proof = proof_stage(res, prop, extra_obligations=extra) if t_ok else dict(ok=False, discharged=0, theorems=[], log=t_log, broken_at="rs2v: " + t_log.strip()[-300:])
+    if not t_ok: res.coverage.update(obligations=extra, discharged=0, checker_cmd="rs2v /repo coq/gen", trusted_base=list(TRUSTED_BASE))
+    build_harness(); gen_ok = build_ml()
     n = 3000 if res.tier == "quick" else 40000
     lines, errs = run_pipeline_sharded(lambda i, k: ([SVH, t["sub"], "--seed", str(res.seed), "--n", str(n), "--shard", "%d/%d" % (i, k)], [driver("drv_blk")]))
     tot, stats, bads, samples = {}, {}, [], []
@@ -22,11 +25,24 @@ def run(res, prop="C08"):
             for k, v in parse_kv(l).items(): stats[k] = stats.get(k, 0) + int(v)
         elif l.startswith("BAD"): bads.append(l.split()[1:3])
         elif l.startswith("SAMPLE") and len(samples) < 5: samples.append(l[7:][:300])
+    pos = {}
+    if prop == "C09":
+        # Tie of the regenerated decision: the kernel applied to the positions the binary sees = how the binary treated the statement
+        plines, perrs = (run_pipeline_sharded(lambda i, k: ([SVH, "c09", "--seed", str(res.seed + 7), "--n", str(n // 5), "--pos-only", "--shard", "%d/%d" % (i, k)], [driver("drv_pos")]))
+                         if gen_ok and os.path.exists(driver("drv_pos")) else ([], ["the regenerated kernel gen/ShouldFormat.v could not be extracted"]))
+        for l in plines:
+            if l.startswith("SUMMARY"):
+                for k, v in parse_kv(l).items(): pos[k] = pos.get(k, 0) + int(v)
+            elif l.startswith("BAD"):
+                w = l.split(); bads.append(["decision:" + w[1], w[3]])
+        errs += perrs
+        if not pos.get("records"): errs.append("no POS records")
     tie_ok = not errs and not bads and tot.get("cases", 0) > 0 and tot.get("cases") == stats.get("cases")
-    if proof["ok"] and tie_ok: res.coverage["discharged"] = proof["discharged"] + 1
+    if proof["ok"] and tie_ok: res.coverage["discharged"] = proof["discharged"] + extra
+    res.coverage["kernels_translated"] = ["src/context.rs :: Context::should_format_node -> coq/gen/ShouldFormat.v (rs2v; the scan of the leading comments is an oracle parameter)"]
     nodes = sum(v for k, v in tot.items() if k.startswith("nodes_"))
     res.coverage.update(evaluations=tot.get("cases", 0), distinct_nontrivial=nodes - tot.get("nodes_outside", 0) if prop == "C09" else nodes,
-                        rule=t["rule"] + "; non-trivial = compared nodes that are ignored / inside the range", samples=samples or ["-"], input_distribution=tot, correspondence=t["corr"])
+                        rule=t["rule"] + "; non-trivial = compared nodes that are ignored / inside the range", samples=samples or ["-"], input_distribution=dict(tot, decision_tie=pos), correspondence=t["corr"] + ("; the regenerated should_format_node applied to (range, node positions) says Normal exactly for the statements treated as inside (%d records, %d on a range boundary)" % (pos.get("records", 0), pos.get("on_a_range_boundary", 0)) if prop == "C09" else ""))
     res.assumptions = ["which statements are ignored is computed in the harness by an independent transcription of context.rs (directive comments in leading trivia; start/end state per block; single-statement ignore)",
                        "statements are located by full_moon's byte positions in input and in re-parsed output"]
     for e in known_findings(prop):
